@@ -193,14 +193,14 @@ def gen_C06(rng, tier):
     nproc = 1
     if all(t["kind"] == "file" for t in scn["tokens"]) and rng.random() < 0.35:
         nproc = 2
-    resub = nproc == 1 and rng.random() < 0.2
+    resub = nproc == 1 and rng.random() < 0.4
     for i in range(nproc):
         sub = None if i == 0 else sorted(rng.sample(range(n), rng.randint(1, n)))
         plan = simple_plan(rng, n, subset=sub)
         if resub:
             x = rng.randrange(n)
             scn["tasks"][x]["out"] = [rng.choice(["exit1", "exc"]), "ok"]
-            plan.append(["wait", x])
+            plan.append(["wait", x] if rng.random() < 0.5 else ["await-final", x])
             plan.append(["resubmit", x])
             if rng.random() < 0.7:
                 plan.append(["wait", x])
@@ -570,7 +570,7 @@ def gen_C14(rng, tier):
             if r < 0.25:
                 plan.append(["yield", rng.randint(1, 6)])
             else:
-                kind = rng.choice(["assign", "assign", "assign-none", "set_meta", "add_pretasks", "add_pretasks_from", "identifier"])
+                kind = rng.choice(["assign", "assign", "assign-none", "set_meta", "add_pretasks", "add_pretasks_from", "identifier", "copy-inplace"])
                 # any task whose upstreams were auto-submitted is a legal target as well
                 plan.append(["mutate", rng.choice(submitted + list(range(n))), rng.randint(0, 7), kind])
         if rng.random() < 0.3:
